@@ -20,7 +20,7 @@ fn flt(t: &str) -> Expr {
 
 /// Declarations that make the leaf templates semantically meaningful.  Names used by the
 /// templates: qubits `q` (register of 4) and `r`, classical `a b c` (int), `u` (uint[8]),
-/// `f` (float[64]), `m` (bit[4]), `k` (bit), `d` (duration), `t` (angle[20]), gates `g1 g2`
+/// `f` (float[64]), `m` (bit[4]), `k` (bit), `d` (duration), `ang` (angle[20]), gates `g1 g2`
 /// and the subroutine `f1`.
 pub fn prelude() -> Vec<Stmt> {
     vec![
@@ -35,7 +35,7 @@ pub fn prelude() -> Vec<Stmt> {
         Stmt::Decl { konst: false, ty: Ty::w("bit", 4), name: s("m"), init: None },
         Stmt::Decl { konst: false, ty: Ty::plain("bit"), name: s("k"), init: None },
         Stmt::Decl { konst: false, ty: Ty::plain("duration"), name: s("d"), init: Some(Expr::Timing(s("10"), false, "ns")) },
-        Stmt::Decl { konst: false, ty: Ty::w("angle", 20), name: s("t"), init: None },
+        Stmt::Decl { konst: false, ty: Ty::w("angle", 20), name: s("ang"), init: None },
         Stmt::Gate { name: s("g1"), params: None, qubits: vec![s("x1")], body: vec![] },
         Stmt::Gate {
             name: s("g2"),
@@ -314,7 +314,7 @@ pub fn unary_mix() -> Vec<Expr> {
 pub const N_POSITIONS: u64 = 12;
 pub fn in_position(pos: u64, e: Expr) -> Stmt {
     match pos {
-        0 => Stmt::Decl { konst: false, ty: Ty::plain("int"), name: s("x"), init: Some(e) },
+        0 => Stmt::Decl { konst: false, ty: Ty::plain("int"), name: s("xv"), init: Some(e) },
         1 => Stmt::ExprStmt(e),
         2 => Stmt::If { cond: e, then: Body::block(vec![]), els: None },
         3 => Stmt::While { cond: e, body: Body::single(Stmt::Break) },
